@@ -67,10 +67,11 @@ P("C15", "other", True, KB,
   "Proved: embedding kernel spec and bounds of the surrogate kernels' array accesses; (TWINS) the recurrence-plot twins kernel _twins_r lists, for every state j, exactly the states k with identical recurrence columns, equal non-trivial neighbour counts and |j-k| > min_dist, each exactly once (the Python list of lists is modelled by its multiplicity table). Bounded: permutation exactness, amplitude spectra, twin structure, repeated calls, rescaling histories.",
   "The Surrogates twins kernel (_twins_s, three-level lists) and the twin-surrogate walks are bounded-only; FFT accuracy is numerical.",
   "P: _embed_time_series_array, _twins_r; R: run-time contract check; B: bounded/c15.py.", notdec=["FFT round-trip accuracy", "_twins_s / _twin_surrogates_* (Python list walks): bounded layer only"])
-P("C16", "other", True, "bounded contract check (the vectorised NumPy bodies are outside the VC generator's subset)",
-  "Bounded: all binary event pairs up to T<=8 against definition-level ES / ECA counting formulas, exchange / shift / rescale relations, symmetrisation table, threshold extraction.",
-  "No unbounded proof obligations exist for this property; stated in DESIGN.md.",
-  "B: bounded/c16.py.", extra="NOP")
+P("C16", "other", True, KB,
+  "Proved: (SYMM) each of the six symmetrisation helpers returns exactly the stated combination of M[i,j] and M[j,i]; (MATRIX) the N x N event-synchronisation and coincidence matrices hold, for every pair i != j, the value the pairwise routine returned for the columns i and j (each pair evaluated once, first component to [i,j], second to [j,i], zero diagonal) - py_mode VCs with loop invariants, column views and transposes. Bounded: all binary event pairs up to T<=8 against definition-level ES / ECA counting formulas, exchange / shift / rescale relations (time units 2^-40..2^40), thresholding incl. integer dtypes, symmetrisation table.",
+  "The pairwise routines event_synchronization / event_coincidence_analysis and make_event_matrix are vectorised NumPy / string-handling code outside the VC generator's subset: bounded layer only.",
+  "P: SYMM + MATRIX obligations; R: run-time check of the SYMM contracts; B: bounded/c16.py.",
+  notdec=["event_synchronization, event_coincidence_analysis, _eca_coincidence_rate, make_event_matrix: bounded layer only"])
 P("C17", "proof", True, KB,
   "Proved for every random draw (draws are havoc): the geographical rewiring kernels I-III keep the graph simple (symmetric 0/1, zero diagonal), keep the edge table consistent and duplicate-free, keep every row sum (degree; point-update lemma), and only swap when the documented conditions hold (disjoint old links, absent new links, C1/C2 within eps, equal degree pairs for III); overwriteAdjacency writes exactly the cross block and nothing else; the cross-link set/rewire kernels keep the cross block binary, the link table consistent and every cross row sum. Bounded: generators and rewirings through the public API over seeds.",
   "Termination of rejection loops is not claimed; igraph generators are dependencies; column sums of the cross block are bounded-only.",
